@@ -19,6 +19,20 @@ CLAIMED = {
                  'k-th reply and close; exact data, exactly-one completion, order, no leaked lock or record'),
     'C07': ('5', 'real dispatcher thread fed by a simulated link with callbacks that add/remove/raise during dispatch; '
                  'independent matcher with must/may/must-not per (packet, registration)'),
+    'C01': ('5', 'real radio driver stack (RadioDriver, shared-radio thread, Crazyradio, safelink loop) over a fake USB dongle '
+                 'and an ESB/safelink peer; seeded and enumerated per-transmission outcomes, USB errors; exactly-once in '
+                 'order both ways, exact link-error threshold, safelink only when confirmed'),
+    'C11': ('5', 'process lives over a simulated file system with crash-at-any-byte of unsynced cache files, read-only and '
+                 'read-write directories, log/param checksum collision; no wrong table, no failed connection, RO never '
+                 'written'),
+    'C12': ('5', 'Bootloader flashing a simulated target with seeded geometry under lost / negative flash-write replies '
+                 '(enumerated patterns); flash equality, untouched pages, packet limits, bounded retries then abort'),
+    'C17': ('5', 'MotionCommander setpoint thread vs commanding thread and PositionHlCommander in virtual time with sleep '
+                 'jitter; stop / notify always last, stream period, height integration, displacement, dead reckoning'),
+    'C18': ('5', 'CPX over an in-memory socket with seeded and enumerated fragmentation, router, pump and consumer threads; '
+                 'framing, per-function FIFO, version rejection, CRTP tunnel both ways'),
+    'C19': ('5', 'Swarm member threads under the scheduler with every failing subset; exactly-once, order, join before '
+                 'return, error chaining, close-all on failed open, real SyncCrazyflie members'),
     'C10': ('5', 'retry timers in virtual time against lost/delayed replies, shared-prefix patterns, close/reopen with timers '
                  'pending; interval, no retransmission after answer, longest-prefix cancel, none across sessions'),
 }
